@@ -452,6 +452,7 @@ class Evaluator:
                     seq = ("array",) + tuple(("int", i_) for i_ in range(seq[1]["start"][1], seq[1]["end"][1]))
                 if seq[0] != "array":
                     seq = self._drain(e, seq)
+                own = hir.simp(e["arms"][0]["body"]).get("label")      # `'outer: for ..` — the label sits on the desugared loop
                 for el in seq[1:]:
                     env2 = Env(env) if isinstance(env, Env) else Env(_as_env(env))
                     if not self.bind(pat, el, env2):
@@ -459,11 +460,11 @@ class Evaluator:
                     try:
                         self.ev(body, env2)
                     except Break as br:
-                        if br.label is None:
+                        if br.label is None or (own is not None and br.label == own):
                             break
                         raise
                     except Continue as ct:
-                        if ct.label is not None:
+                        if ct.label is not None and not (own is not None and ct.label == own):
                             raise
                 return ("unit",)
         if k == "match":
